@@ -130,6 +130,19 @@ ACC_ONLY = {
     "gen_rs_w_times": lambda o, a: o.gen_response_spectrum(response_times=_periods(o, a)),
     "response_series_w_times": lambda o, a: o.response_series(response_times=_periods(o, a)),
 }
+def _scale_periods_inplace(o, a):
+    """`asig.response_times *= c`: Python reads the property, scales the stored array in place and assigns the SAME object back."""
+    if not (isinstance(o.response_times, np.ndarray) and o.response_times.dtype.kind == "f"):
+        o.response_times = np.array(o.response_times, dtype=float)
+    o.response_times *= a.get("c", 1.5)
+
+
+def _scale_freqs_inplace(o, a):
+    o.smooth_fa_freqs *= a.get("c", 1.25)
+
+
+MUTATORS["scale_freqs_inplace"] = _scale_freqs_inplace
+ACC_ONLY["scale_periods_inplace"] = _scale_periods_inplace
 MUTATORS.update(ACC_ONLY)
 # explicit regeneration calls with default arguments (must behave like reads)
 REGEN = {
@@ -182,6 +195,8 @@ FIXED_ARGS = {
     "set_response_times": {"ratios": [8.0, 40.0, 90.0], "as": "list"},
     "gen_rs_w_times": {"ratios": [12.0, 55.0], "lead0": True},
     "response_series_w_times": {"ratios": [6.5, 70.0, 150.0, 200.0]},
+    "scale_periods_inplace": {"c": 1.5},
+    "scale_freqs_inplace": {"c": 1.25},
 }
 assert set(FIXED_ARGS) == set(MUTATORS)
 
@@ -266,6 +281,65 @@ enum_clause(CLAUSES, "exhaustive-sig", _enum_cases("sig"),
             oracle="differential against a fresh object (1e-10 of magnitude); second read identical",
             exhaustive_note="complete over cache state x mutator x observable for the listed records",
             quick_shards=1)(_exhaustive)
+
+
+SETTINGS = ["set_freqs", "set_frequencies", "set_freq_range", "set_freq_points", "set_by_range", "gen_smooth_w_freqs",
+            "scale_freqs_inplace", "set_response_times", "gen_rs_w_times", "response_series_w_times", "scale_periods_inplace"]
+# a second value for every setting (same shape as FIXED_ARGS where that matters: same number of frequencies / periods)
+ALT_ARGS = {
+    "set_freqs": {"freqs": [0.6, 1.1, 2.3, 4.4, 7.7], "as": "ndarray"},
+    "set_frequencies": {"logspace": [0.2, 15.0, 50]},
+    "set_freq_range": {"lo": 0.1, "hi": 30.0},            # the constructor's default range
+    "set_freq_points": {"n": 50},                           # the constructor's default count
+    "set_by_range": {"lo": 0.1, "hi": 30.0, "n": 50},       # exactly the constructor's default
+    "gen_smooth_w_freqs": {"logspace": [0.15, 22.0, 50]},
+    "scale_freqs_inplace": {"c": 0.8},
+    "set_response_times": {"ratios": [3.0, 8.0, 50.0, 200.0], "as": "ndarray"},   # the constructor's periods
+    "gen_rs_w_times": {"ratios": [9.0, 55.0], "lead0": True},
+    "response_series_w_times": {"ratios": [4.0, 70.0, 150.0, 200.0]},
+    "scale_periods_inplace": {"c": 2.0 / 3.0},
+}
+
+
+def _reapply_enum(tier, shard, nshards):
+    i = 0
+    for cls_name in ("acc", "sig"):
+        names = [m for m in SETTINGS if cls_name == "acc" or m not in ACC_ONLY]
+        for s1 in names:
+            for v1 in ("fixed", "alt"):
+                for s2 in names:
+                    for v2 in ("fixed", "alt"):
+                        if i % nshards == shard:
+                            yield {"cls": cls_name, "s1": s1, "v1": v1, "s2": s2, "v2": v2}
+                        i += 1
+
+
+@enum_clause(CLAUSES, "reapply-settings", _reapply_enum,
+             rule="every ordered pair of settings changes (11 for AccSignal, 7 for Signal; two argument sets each, one of them "
+                  "re-stating the constructor's defaults): apply S1, read everything, apply S2, read everything, apply S1 again with "
+                  "the same arguments, read everything; non-trivial = S1 != S2",
+             oracle="differential against a fresh object after each of the three steps (1e-10 of magnitude)",
+             exhaustive_note="complete over ordered pairs of settings changes x two argument sets each, on a fixed record", quick_shards=4)
+def reapply_settings(case, ctx):
+    cls_name = case["cls"]
+    obs = ACC_OBS if cls_name == "acc" else SIG_OBS
+    obj = _make(cls_name, 96)
+    ctx.nt(case["s1"] != case["s2"])
+    ctx.cls("s1=" + case["s1"])
+
+    def args(name, which):
+        return FIXED_ARGS[name] if which == "fixed" else ALT_ARGS[name]
+
+    def check(what):
+        fresh = fresh_of(obj)
+        for nm in obs:
+            compare(ctx, nm, read(obj, nm), read(fresh, nm), what)
+    for nm in obs:
+        read(obj, nm)
+    for step, (name, which) in enumerate(((case["s1"], case["v1"]), (case["s2"], case["v2"]), (case["s1"], case["v1"]))):
+        _apply(ctx, obj, name, args(name, which), fixed=True)
+        check("after %s" % " -> ".join(["%s(%s)" % (case["s1"], case["v1"]), "%s(%s)" % (case["s2"], case["v2"]),
+                                         "%s(%s) again" % (case["s1"], case["v1"])][:step + 1]))
 
 
 def _iso_enum(tier, shard, nshards):
@@ -475,6 +549,23 @@ class C04Machine(HM):
           which=st.sampled_from(["set_response_times", "gen_rs_w_times", "response_series_w_times"]))
     def periods(self, ratios, lead0, as_, which):
         self.do(which, {"ratios": ratios, "lead0": lead0, "as": as_})
+
+    @rule(c=st.sampled_from([0.5, 1.5, 2.0, 3.0]), which=st.sampled_from(["scale_periods_inplace", "scale_freqs_inplace"]))
+    def scale_setting_inplace(self, c, which):
+        self.do(which, {"c": c})
+
+    @rule(pool=st.integers(0, 3), which=st.sampled_from(["set_by_range", "set_freq_range", "set_freqs", "set_frequencies", "gen_smooth_w_freqs"]))
+    def smooth_settings_from_pool(self, pool, which):
+        """a small pool of settings (incl. the constructor default), so that the SAME setting is re-applied after other changes"""
+        lo, hi, n = [(0.1, 30.0, 50), (0.5, 20.0, 50), (0.1, 30.0, 30), (1.0, 10.0, 50)][pool]
+        if which in ("set_by_range", "set_freq_range"):
+            self.do(which, {"lo": lo, "hi": hi, "n": n})
+        else:
+            self.do(which, {"logspace": [lo * 1.1, hi * 0.9, n]})
+
+    @rule(pool=st.integers(0, 2), which=st.sampled_from(["set_response_times", "gen_rs_w_times", "response_series_w_times"]))
+    def periods_from_pool(self, pool, which):
+        self.do(which, {"ratios": [[8.0, 40.0, 90.0], [12.0, 55.0], [25.0, 60.0, 200.0]][pool], "lead0": False, "as": "ndarray"})
 
     @rule(r1=gen.log_uniform(2.0, 19.0), r2=gen.log_uniform(2.0, 60.0),
           which=st.sampled_from(["set_response_times", "gen_rs_w_times", "response_series_w_times"]))
